@@ -7,7 +7,9 @@ permutation / single-row metamorphic relation.
 import itertools
 from decimal import InvalidOperation
 
-from .. import engine, gen, ir, model, monitors
+import re
+
+from .. import engine, gen, ir, ledgers, model, monitors
 from ..core import stable_hash
 from ..ir import T_BOOL, T_INT, T_NULL
 from ..values import same_rows, first_row_diff, show, show_rows
@@ -317,10 +319,122 @@ def run(ctx):
     # ---- random part
     n_random = ctx.pick(1200, 25000)
     depth = ctx.pick(4, 7)
+    n_ledger = ctx.pick(12, 160)         # per shard
     for n in range(n_random):
         if ctx.out_of_time():
             break
         random_case(ctx, n, depth, mon)
+        if n % max(1, n_random // n_ledger) == 0:
+            ledger_rows_case(ctx, n)
+
+
+# ---------------------------------------------------------------------------
+# ledger rows: the functions that read the row context (the posting, its transaction) and the ledger's other tables
+
+ROW_TARGETS = [
+    'account', 'number', 'currency', 'date', 'narration', 'payee', 'flag', 'posting_flag', 'position', 'weight', 'cost_number',
+    'price', 'tags', 'links', 'other_accounts', 'year', 'month', 'day', 'description',
+    'has_account("{pat}")', 'NOT has_account("{pat}")', 'has_account("{pat2}") AND number > 0',
+    'meta("{key}")', 'entry_meta("{key}")', 'any_meta("{key}")', 'open_date(account)', 'close_date(account)',
+    'open_date(parent(account))', 'open_meta(account, "{key}")', 'currency_meta(currency, "{key}")',
+    'root(account, 1)', 'root(account, 2)', 'parent(account)', 'leaf(account)', 'account_sortkey(account)',
+    'number * 2', 'abs(number)', 'number > 0', 'str(number)', 'account ~ "{pat}"', 'length(narration)',
+    'coalesce(payee, narration)', '"{tag}" IN tags', 'units(position)', 'cost(position)', 'getprice(currency, "USD")',
+    'convert(position, "USD")', 'value(position)', 'possign(number, account)', 'date_add(date, 1)', 'weekday(date)',
+    'payee IS NULL', 'coalesce(cost_number, number)', 'safediv(number, cost_number)',
+]
+ROW_CONDITIONS = [
+    'has_account("{pat}")', 'NOT has_account("{pat}")', 'has_account("{pat}") OR has_account("{pat2}")',
+    'any_meta("{key}") IS NOT NULL', 'meta("{key}") IS NULL', 'number > 0', 'account ~ "{pat}"', '"{tag}" IN tags',
+    'open_date(account) < date', 'close_date(account) IS NULL', 'cost_number IS NOT NULL', 'payee IS NULL AND number < 0',
+    'year = 2020', 'currency = "USD"', 'has_account("{pat}") AND account ~ "{pat2}"',
+]
+PATTERNS = ['Assets', 'Food', 'Bank', 'expenses:', 'Broker', '^Income', 'Card$', 'Cash|Rent', 'Nope', 'a', 'Sub:Deep', 'Liabilities:Loan']
+META_KEYS = ['note', 'ref', 'when', 'ok', 'amt', 'acct', 'cur', 'num', 'tag', 'absent']
+
+
+def _fill(rng, text):
+    return text.format(pat=rng.choice(PATTERNS), pat2=rng.choice(PATTERNS), key=rng.choice(META_KEYS), tag=rng.choice(ledgers.TAGS))
+
+
+def ledger_rows_case(ctx, n):
+    """(a) has_account() equals "some posting of the row's transaction has a matching account", for every row, as a
+    column and as a condition; (b) isolation: the rows of a statement over the whole ledger that belong to a subset of
+    the transactions equal the result of the same statement over the ledger holding only those transactions (all other
+    directives kept): every cell is computed from its own row alone."""
+    from beancount.core import data
+    rng = ctx.rng('ledger-rows', n)
+    led = ledgers.gen_ledger(rng, ntxn=rng.randint(3, ctx.pick(10, 30)))
+    entries, errors, options = led.loaded
+    conn = engine.connection(ledger=(entries, errors, options))
+    txns = [e for e in entries if isinstance(e, data.Transaction)]
+    if not txns:
+        return
+    # (a) reference for has_account
+    pat = rng.choice(PATTERNS)
+    search = re.compile(pat, re.IGNORECASE).search
+    per_row = [any(search(p.account) for p in t.postings) for t in txns for _ in t.postings]
+    try:
+        _, _, col = engine.run(conn, f'SELECT has_account("{pat}") AS h')
+        _, _, sel = engine.run(conn, f'SELECT date, account, number WHERE has_account("{pat}")')
+        _, _, frm = engine.run(conn, f'SELECT date, account, number FROM has_account("{pat}")')
+        _, _, allrows = engine.run(conn, 'SELECT date, account, number')
+    except Exception as exc:  # noqa: BLE001
+        ctx.violation(f'c01.ledger_rows_raised.{monitors.classify_exception(exc)}', f'has_account("{pat}"): {exc!r}', {'pattern': pat, 'ledger': led.text})
+        return
+    ctx.count('obs.ledger_has_account_rows', len(per_row))
+    ctx.case(('has_account', pat, led.text), len(set(per_row)) > 1)
+    if len(set(per_row)) > 1:
+        ctx.count('obs.ledger_has_account_mixed')
+    if [r[0] for r in col] != per_row:
+        bad = next(i for i, (a, b) in enumerate(zip([r[0] for r in col] + [None], per_row + [None])) if a != b)
+        ctx.violation('c01.has_account_value', f'has_account("{pat}") row {bad}: engine {col[bad][0] if bad < len(col) else "-"} expected {per_row[bad] if bad < len(per_row) else "-"}',
+                      {'pattern': pat, 'ledger': led.text})
+    exp_sel = [tuple(r) for r, keep in zip(allrows, per_row) if keep]
+    for name, got in (('WHERE', sel), ('FROM', frm)):
+        if [tuple(r) for r in got] != exp_sel:
+            ctx.violation('c01.has_account_filter', f'{name} has_account("{pat}") selects {len(got)} rows, expected {len(exp_sel)}',
+                          {'pattern': pat, 'ledger': led.text})
+    # (b) isolation
+    targets = [_fill(rng, t) for t in rng.sample(ROW_TARGETS, rng.randint(2, 6))]
+    cond = _fill(rng, rng.choice(ROW_CONDITIONS)) if rng.random() < 0.5 else None
+    clause = '' if cond is None else (f' FROM {cond}' if rng.random() < 0.3 else f' WHERE {cond}')
+    stmt = 'SELECT id, ' + ', '.join(f'{t} AS c{i}' for i, t in enumerate(targets)) + clause
+    try:
+        _, _, full = engine.run(conn, stmt)
+    except Exception as exc:  # noqa: BLE001
+        ctx.violation(f'c01.ledger_rows_raised.{monitors.classify_exception(exc)}', f'{stmt}: {exc!r}', {'statement': stmt, 'ledger': led.text})
+        return
+    others = [e for e in entries if not isinstance(e, data.Transaction)]
+    from beancount.parser import printer  # noqa: F401
+    from beancount.core import compare
+    ids = []
+    for t in txns:
+        h = compare.hash_entry(t)
+        if h not in ids:
+            ids.append(h)
+    for rep in range(2):
+        keep = set(rng.sample(ids, rng.randint(1, max(1, len(ids) // 2)))) if rep else {rng.choice(ids)}
+        sub = [e for e in entries if not isinstance(e, data.Transaction) or compare.hash_entry(e) in keep]
+        try:
+            _, _, part = engine.run(engine.connection(ledger=(sub, errors, options)), stmt)
+        except Exception as exc:  # noqa: BLE001
+            ctx.violation(f'c01.ledger_rows_raised.{monitors.classify_exception(exc)}', f'{stmt} over a sub-ledger: {exc!r}', {'statement': stmt, 'ledger': led.text})
+            return
+        exp = [r for r in full if r[0] in keep]
+        ctx.count('obs.ledger_isolation_checks')
+        ctx.count('obs.ledger_isolation_rows', len(exp))
+        ctx.case(('isolation', stmt, led.text, tuple(sorted(keep))), len(exp) > 0 and len(exp) < len(full))
+        if not same_rows(part, exp):
+            d = first_row_diff(part, exp)
+            ctx.violation('c01.ledger_row_isolation',
+                          f'{stmt}: over the ledger holding only {len(keep)} of its transactions row {d[0]} is {show(d[1])}, in the result over the whole ledger it is {show(d[2])}',
+                          {'statement': stmt, 'ledger': led.text, 'kept_transaction_ids': sorted(keep)})
+            break
+    if ctx.counters['obs.ledger_samples'] < 1:
+        ctx.count('obs.ledger_samples')
+        ctx.sample({'part': 'ledger', 'statement': stmt, 'rows_full_ledger': len(full), 'has_account_pattern': pat,
+                    'has_account_true_rows': sum(per_row), 'rows': len(per_row)}, force=True)
 
 
 def random_case(ctx, n, depth, mon):
@@ -375,6 +489,8 @@ def replay(ctx, case):
     label = (case or {}).get('label', '')
     if label.startswith('random/'):
         random_case(ctx, int(label.split('/')[1]), ctx.pick(4, 7), mon)
+    elif 'ledger' in (case or {}):
+        print('replay: ledger case; the ledger text and the statement are in the replay file; re-run the check with the same seed')
     else:
         for idx, (lab, tables, q, traces) in enumerate(systematic_cases()):
             if lab == label and ir.to_text(q, _LIT) == case.get('statement'):
@@ -399,6 +515,8 @@ def finalize(merged):
         reasons.append('AND/OR trace monitor never fired')
     if c.get('obs.node_evaluations', 0) == 0:
         reasons.append('node evaluation hook never fired')
+    if c.get('obs.ledger_isolation_checks', 0) == 0 or c.get('obs.ledger_has_account_mixed', 0) == 0:
+        reasons.append('ledger-row part observed nothing (no isolation check, or has_account() constant over every ledger)')
     merged['extra']['overloads_in_spec'] = len(gen.BIN_ALL) + len(gen.UN) + len(gen.UN_ANY) + len(gen.BETWEEN) + len(gen.FUNCS)
     merged['extra']['overload_nullpatterns_observed'] = len(pats)
     return reasons
